@@ -42,7 +42,7 @@ from lib.straxlib import strax
 import numpy as np
 
 ID = "C10"
-LEAN_MODULES = ["StraxModel.Props.C10"]
+LEAN_MODULES = ["StraxModel.Props.C10", "StraxModel.Props.C10Multi"]
 TRUSTED = [
     "modelled not verified: numexpr evaluation of selection strings (the model has an abstract row predicate; the harness "
     "generates strings / string lists / callables from a five-atom language and evaluates the same atoms in plain Python for the oracle)",
